@@ -423,5 +423,6 @@ SUBS = [
         n_quick=500, n_thorough=3000),
     Sub("values", check_value, strategy=lambda tier: asts.values(2 if tier == "quick" else 3).map(lambda v: {"v": v}), nontrivial=nt_depth("v"),
         classes=lambda c: [c["v"]["k"]], n_quick=700, n_thorough=5000),
+    Sub("ext-ops", check_op, strategy=lambda tier: asts.ext_ops(2).map(lambda o: {"op": o}), nontrivial=nt_op, classes=lambda c: ["via:" + c["op"]["via"]] + cls_op(c), n_quick=400, n_thorough=4000),
     Sub("ops", check_op, strategy=lambda tier: asts.op_asts(2).map(lambda o: {"op": o}), nontrivial=nt_op, classes=cls_op, n_quick=1200, n_thorough=8000),
 ]
